@@ -1,0 +1,47 @@
+//go:build verif
+
+// Contracts for package llm, checked by /verif/govc (comment-only file).
+package llm
+
+// ---- C13: the audit fails closed
+//@ pred okVerdict(v string) = upper(v) == "MATCH" || upper(v) == "SUSPICIOUS" || upper(v) == "LIE"
+//@ pred okEvidence(ev string) = !contains(lower(ev), "ignore previous") && !contains(lower(ev), "system prompt")
+
+//@ func validateOutput
+//@   ensures [C13.validate] result == nil ==> okVerdict(res.Verdict) && okEvidence(res.Evidence)
+//@   loop 1 invariant 0 <= #i && forall k in 0..#i :: !contains(lower(res.Evidence), forbiddenPhrases[k])
+
+//@ func parseLLMJSON
+//@   noframe
+//@   ensures [C13.parse] result1 != nil ==> result0.Verdict == "" && result0.Evidence == ""
+
+//@ func scanForInjection
+//@   noframe
+//@   ensures [C13.screen] result2 != nil ==> !result0
+
+//@ func callOpenAI
+//@   noframe
+//@   ensures [C13.provider] result1 != nil ==> result0.Verdict == ""
+
+//@ func callGemini
+//@   noframe
+//@   ensures [C13.provider] result1 != nil ==> result0.Verdict == ""
+
+//@ func CallLLM
+//@   noframe
+//@   ghost screened bool
+//@   init screened = false
+//@   call scanForInjection update screened = result0 && result2 == nil
+//@   ensures [C13.err] result1 != nil ==> result0.Verdict == "ERROR"
+//@   ensures [C13.match] result0.Verdict == "MATCH" ==> result1 == nil && screened && okEvidence(result0.Evidence)
+//@   ensures [C13.unsafe] result1 == nil && !screened ==> result0.Verdict == "LIE"
+//@   ensures [C13.verdicts] result1 == nil ==> result0.Verdict == "LIE" || result0.Verdict == "SUSPICIOUS" || okVerdict(result0.Verdict)
+
+// The provider is asked at most MaxHTTPRetries+1 times, and anything but a decoded answer is an error.
+//@ func executeOpenAIRaw
+//@   noframe
+//@   ghost attempts int
+//@   init attempts = 0
+//@   call (*net/http.Client).Do update attempts = attempts + 1
+//@   ensures [C13.retries] attempts <= models.MaxHTTPRetries + 1
+//@   loop 1 invariant 0 <= i && i <= models.MaxHTTPRetries + 1 && attempts <= i
